@@ -285,6 +285,16 @@ fn cli_case(ctx: &Ctx, ch: &mut Ch, scratch: &cli::Scratch) -> Outcome {
         return Ok(());
     }
     let what = format!("file bytes {:?}", String::from_utf8_lossy(&bytes));
+    // Stack exhaustion is the allowed abnormal ending when the program itself diverges, which is
+    // only possible once the type checker runs: i.e. when the file tokenizes and parses.
+    if run.status >= 1000 && String::from_utf8_lossy(&run.stderr).contains("has overflowed its stack") {
+        if let Ok(text) = std::str::from_utf8(&bytes) {
+            if matches!(pipeline(ctx, text, false), Ok(Stage::Accepted)) {
+                ctx.inconclusive("cli: stack exhausted in the type checker on a program that parses (divergence written in the program is allowed)");
+                return Ok(());
+            }
+        }
+    }
     let class = cli_contract(&run, &what)?;
     ctx.class(class);
     if std::str::from_utf8(&bytes).is_err() {
